@@ -225,6 +225,26 @@ func init() {
 			if len(segs) == 0 {
 				continue
 			}
+			// chunk boundaries inside and around every separator, for each separator style
+			for _, sep := range []string{"\r\n", "", "\n\n"} {
+				t2 := strings.Join(segs, sep) + sep
+				b2 := doRead(t2, 0, nil, io.EOF, "nil", nil)
+				for _, k := range []int{1, 2, 3, 5, 7, 64} {
+					o.Case("prop:chunk-agree", sameOr(b2, doRead(t2, k, nil, io.EOF, "nil", nil)), t2, fmt.Sprint(k))
+				}
+				pos := 0
+				for si, sg := range segs {
+					pos += len(sg)
+					if si%3 == 0 || thorough {
+						for d := -1; d <= len(sep)+1; d++ {
+							if c := pos + d; c > 0 && c < len(t2) {
+								o.Case("prop:chunk-agree", sameOr(b2, doRead(t2, 0, []int{c}, io.EOF, "nil", nil)), t2, fmt.Sprintf("@%d", c))
+							}
+						}
+					}
+					pos += len(sep)
+				}
+			}
 			ref := doRead(strings.Join(segs, "\n"), 0, nil, io.EOF, "nil", nil)
 			for _, sep := range []string{"", "\n", "\r\n", "\n\n", "\r\n\r\n"} {
 				r := doRead(strings.Join(segs, sep), 0, nil, io.EOF, "nil", nil)
